@@ -154,6 +154,16 @@ func (r *runner) eng(op Op) (string, string) {
 		return rc(s.Open()), ""
 	case "close":
 		return rc(s.Close()), ""
+	case "closefail":
+		// Close with its final metadata write failing: volume.meta.tmp cannot be created
+		blocker := filepath.Join(r.dir, "volume.meta.tmp")
+		os.Remove(blocker)
+		if err := os.Mkdir(blocker, 0700); err != nil {
+			return "err", "harness: " + err.Error()
+		}
+		err := s.Close()
+		os.Remove(blocker)
+		return rc(err), ""
 	case "crash":
 		// process death: the Server object and its open files are abandoned
 		r.abandon()
@@ -354,6 +364,8 @@ func (r *runner) observe(res, note string) Obs {
 	rep := r.s.Replica()
 	if rep != nil {
 		o.Mode = rep.GetReplicaMode()
+	}
+	if rep != nil && o.Mode != "CLOSED" {
 		img := make([]int64, nblk)
 		buf := make([]byte, blk)
 		for b := 0; b < nblk; b++ {
